@@ -26,7 +26,7 @@ func init() {
 			"Added after blind round 7: the replica's state loop returns only on the ctx.Done() arm; the catch-up poll sends the entries as read (no re-slicing before the emptiness test). " +
 			"Added after blind round 8: connecting means dialing: every exit of Replica.connectToPrimary passes connector.Connect (a lifetime budget of failed dials that is never refilled stops the replica for ever); StateTracker.GetStateDuration finds the LATEST transition into the current state (newest-first and stop, or oldest-first without stopping) — the reconnect back-off is computed from it and this replica passes through ERROR after every batch.",
 		NotDecided: "convergence itself, time bounds, join/restart timing, the replica state machine's liveness, retention racing with a slow replica.",
-		Rules:      []func(*Ctx, *Reporter){ruleC14ObserversFollow, ruleC14ObserversSee, ruleC14SeqContract, ruleC14CursorUnits, ruleC14CatchUp, ruleC14PollRetransmits, ruleReplCursor, ruleCatchUpGuard, ruleNoReceiveLimit, ruleCatchUpFlushesFirst, ruleReplEntryCodec, ruleReplicaAcceptsWhatIsSent, ruleErrorStateRetries, ruleReplicationLoopNeverGivesUp, rulePollSendsWhatItRead, ruleConnectAlwaysDials, ruleStateDurationSinceLatestEntry},
+		Rules:      []func(*Ctx, *Reporter){ruleC14ObserversFollow, ruleC14ObserversSee, ruleC14SeqContract, ruleC14CursorUnits, ruleC14CatchUp, ruleC14PollRetransmits, ruleReplCursor, ruleCatchUpGuard, ruleNoReceiveLimit, ruleCatchUpFlushesFirst, ruleReplEntryCodec, ruleReplicaAcceptsWhatIsSent, ruleErrorStateRetries, ruleReplicationLoopNeverGivesUp, rulePollSendsWhatItRead, ruleConnectAlwaysDials, ruleStateDurationSinceLatestEntry, ruleSenderSendsWhatIsInTheLog, ruleEveryStateChangeIsRecorded},
 	})
 }
 
